@@ -68,7 +68,7 @@ def script_text(cfgd, i, ops, style):
         elif op == "call":
             parts.append(_guard("call", "%s.%s" % (via, name), i, "%s.%s()" % (via, name), 0, style))
         elif op == "attr":
-            parts.append(_guard("attr", via, i, "context.write('{val||%%d|0}' %% %s.attr.%s)" % (via, name), 0, style))
+            parts.append(_guard("attr", via, i, "context.write('{val||%%d|%%d}' %% av(%s.attr.%s))" % (via, name), 0, style))
         elif op == "here":
             inner = script_text(cfgd, i, t["bs"] if name == "b" else t["cs"], style)
             parts.append('<%%block name="%s">%s</%%block>' % (name, inner))
@@ -99,8 +99,10 @@ def template_texts(cfgd, style, uri_of):
             head.append('<%%inherit file="%s"/>' % uris[t["p1"]][1])
         elif t["inh"] == "dyn":
             head.append('<%%inherit file="${%r if context[\'sw\'] else %r}"/>' % (uris[t["p1"]][1], uris[t["p2"]][1]))
-        if t["a"]:
+        if t["a"] == "truthy":
             head.append("<%%! a = %d %%>" % i)
+        elif t["a"] == "falsy":      # a different falsy value per level
+            head.append("<%%! a = %s %%>" % FALSY[(i - 1) % len(FALSY)])
         if t["f"]:
             head.append('<%%def name="f()">%s</%%def>' % script_text(cfgd, i, t["fs"], style))
         text = "\n".join(head) + ("\n" if head else "") + script_text(cfgd, i, t["body"], style + i) + "\n"
@@ -108,6 +110,16 @@ def template_texts(cfgd, style, uri_of):
         texts[i] = text
         uris[i] = uri_of(h, style + i)
     return texts, uris
+
+
+FALSY = ["0", '""', "False", "None", "[]", "{}", "0.0", "()"]
+
+
+def av(v):
+    """attribute value -> (level that defined it, truthiness), for the val token"""
+    if v:
+        return (int(v), 1)
+    return (FALSY.index(repr(v).replace("'", '"')) + 1, 0)
 
 
 class _Alarm(Exception):
@@ -177,7 +189,7 @@ def render_cfg(cfgd, style, backed):
                 context.write("{ERR||0|0}")
             return ""
         buf = FastEncodingBuffer()
-        ctx = Context(buf, g=g, sw=cfgd["sw"])
+        ctx = Context(buf, g=g, av=av, sw=cfgd["sw"])
         signal.signal(signal.SIGALRM, _on_alarm)
         signal.setitimer(signal.ITIMER_REAL, 10.0)
         try:
@@ -263,7 +275,7 @@ def random_cfg(rng, n):
         c = rng.choice(["none", "none", "top", "inb"])
         if c == "inb" and not b:
             c = "top"
-        t = {"f": rng.random() < 0.5, "a": rng.random() < 0.5, "b": b, "c": c, "inh": inh,
+        t = {"f": rng.random() < 0.5, "a": rng.choice(["none", "falsy", "truthy"]), "b": b, "c": c, "inh": inh,
              "p1": 0 if inh == "none" else i - 1, "p2": n + 1 if inh == "dyn" else 0}
         vias = ["self", "local"] + (["next"] if hn else []) + (["parent"] if hp else [])
         mid = []
@@ -311,7 +323,7 @@ def _safe_tok(s):
 
 # --------------------------------------------------------------------------- the check
 INVS = ["TypeOK", "SelfMostDerived", "NextParentAdjacent", "LocalIsOwn", "BaseBodyRuns", "MemoSound",
-        "BlockOnce", "AnonInPlace", "BodyArgs"]
+        "BlockOnce", "AnonInPlace", "BodyArgs", "AttrValues"]
 
 
 def mc_cfg():
@@ -320,8 +332,8 @@ def mc_cfg():
 
 
 def bounds_module(b):
-    return ("---- MODULE MC_InheritBounds ----\nMaxNDef == [dispatch |-> %d, blocks |-> %d, args |-> %d, dyn |-> %d]\n====\n"
-            % (b["dispatch"], b["blocks"], b["args"], b["dyn"]))
+    return ("---- MODULE MC_InheritBounds ----\nMaxNDef == [dispatch |-> %d, attrs |-> %d, blocks |-> %d, args |-> %d, dyn |-> %d]\n====\n"
+            % (b["dispatch"], b["attrs"], b["blocks"], b["args"], b["dyn"]))
 
 
 def first_diff(exp, obs):
@@ -355,11 +367,11 @@ def check(run):
     workers = 8 if os.environ.get("VERIF_FULL_CPU", "1") == "1" else 4
     nproc = min(core.NCPU, 12)
     # ------------------------------------------------------------------ 1. TLC: enumerate, check, print
-    bounds = {"dispatch": 5, "blocks": 5, "args": 5, "dyn": 4} if thorough else {"dispatch": 4, "blocks": 4, "args": 4, "dyn": 3}
+    bounds = {"dispatch": 5, "attrs": 5, "blocks": 5, "args": 5, "dyn": 4} if thorough else {"dispatch": 4, "attrs": 4, "blocks": 4, "args": 4, "dyn": 3}
     # (-coverage slows TLC down 4x on this model: action coverage is taken from a complete run with chains <= 2,
     #  the large run's own vacuity evidence is the printed terminal states, see below)
     cov = run.tlc("MC_Inherit", mc_cfg(), name="mc-inherit-cov", coverage=True, timeout=250, workers=4,
-                  extra_files={"MC_InheritBounds.tla": bounds_module({"dispatch": 2, "blocks": 2, "args": 2, "dyn": 2})})
+                  extra_files={"MC_InheritBounds.tla": bounds_module({"dispatch": 2, "attrs": 2, "blocks": 2, "args": 2, "dyn": 2})})
     if cov.violated:
         run.spec_violation(cov)
         return {"rule": "TLC found the design model violating %s" % cov.violated, "exhaustive": True}
